@@ -41,7 +41,7 @@ _RECV_TRUST = [
 PROPS_ADD = {
     "C16": {
         "seed": 16,
-        "areas": [("receiver", 240)],
+        "areas": [("receiver", 240), ("crash", 30)],
         "thorough_mult": 8,
         "assumptions": [
             "PARTIAL: 'eventually' is proved as (explicit measure: finitely many useful steps) + (no useful step "
